@@ -88,6 +88,8 @@ def concretise(s, models, texts, bigm_opts, rnd):
         c["mk_sol_dir"] = True
     if s["out"] == "full":
         c["sol_symlink"] = "/dev/full"
+    if s["stub"] == "dotted":
+        c["stub_name"] = "run.2/m.v2"
     c["dims"] = (nv, nc)
     return c
 
@@ -98,8 +100,8 @@ def run(tier):
     mc = tlc("MCDriver", "MCDriver.cfg", cwd=sd, workers=NPROC)
     tlc_must_pass(mc, "MCDriver")
     scen = printed_json(mc, "CASE")
-    if len(scen) != 5294:
-        raise Broken("expected 5294 scenarios, got %d" % len(scen))
+    if len(scen) != 6614:
+        raise Broken("expected 6614 scenarios, got %d" % len(scen))
     scen.sort(key=lambda s: json.dumps(s, sort_keys=True))
     exe = targets.get("h_drv")
     cfgs, acc = cvtcases.configs(exe)
